@@ -33,7 +33,9 @@ def _inv_index(lv):
     c = lv.ctx; h = lv.h
     wire = lv.env['wire'][1]; L = lv.dom[1]
     j = Int('jq_iw')
-    return [('C04', 'counter-is-position', lv.cur['index'][1] == lv.i),
+    # the position counter of the hand-written form; with `for k, w in enumerate(...)` the position is the loop target itself
+    counter = [('C04', 'counter-is-position', lv.cur['index'][1] == lv.i)] if 'index' in lv.cur and lv.cur['index'][0] == 'int' else []
+    return counter + [
             ('C04', 'not-found-so-far', ForAll([j], Implies(And(0 <= j, j < lv.i), c.at(L, j) != wire), patterns=[c.at(L, j)]))]
 
 
